@@ -23,7 +23,7 @@ Operations (lists, so that they stay small in replay files):
                                                 {"t": n} = the node that the n-th resolved in-tree alias targets,
                                                 {"kind": k, "n": n} = the n-th in-tree node of that kind
     ["del", api, form, nref, klen]              api: "del_member" | "delitem"; nref as above or literal names
-    ["resolve", aref, how]                      how: "resolve_target" | "target"
+    ["resolve", aref, how]                      how: "resolve_target" | "target" | "final_target"
     ["retarget", aref, mode, oref]              mode: "obj" (alias.target = in-tree non-alias object) | "self"
                                                 | "same-obj" | "same-alias" (a detached object/alias with the alias's own path)
 
@@ -54,6 +54,7 @@ ALLOWED_IN = {
 K_STALE = "stale-alias-key-after-ancestor-move"
 K_TOPLEVEL = "collection-insert-keeps-old-parent"
 K_CLOBBER = "detached-alias-backref-clobbers-registration"
+K_INNER = "inner-link-retarget-strands-outer-aliases"
 
 
 class Skip(Exception):
@@ -92,7 +93,9 @@ class World:
         self.on_excluded = on_excluded or (lambda slug: None)
         self.opdesc = ""  # coarse description of the current step (bucket key)
         self.opfull = ""
-        self.moved_root: list[str] | None = None  # path at which the current step re-inserted a detached subtree
+        self.moved_root: list[str] | None = None
+        self.retargeted: str | None = None
+        self.hijacked: list[str] = []  # path at which the current step re-inserted a detached subtree
 
     # ------------------------------------------------------------------ model helpers
     def path_of(self, node: Node) -> list[str]:
@@ -248,6 +251,8 @@ class World:
         kind = op[0]
         self.opdesc = self.opfull = kind
         self.moved_root = None
+        self.retargeted = None  # path of the alias whose target the current step assigned explicitly
+        self.hijacked = []  # aliases re-targeted by set_member through a stale back-reference
         try:
             if kind == "set":
                 fails = self._op_set(*op[1:])
@@ -354,6 +359,7 @@ class World:
                 if followers:
                     self.opfull += "+followers"
                 self._steer_clobber(old_real, real, followers)
+                self._steer_hijack(old_real)
                 if old.kind == "module" and old.fp:
                     merged = self._merge_plan(old, node, real)
             if any(self._targets_into(old)):
@@ -503,6 +509,19 @@ class World:
                 self.on_excluded(K_CLOBBER)
                 raise Skip("known:" + K_CLOBBER)
 
+    def _steer_hijack(self, old_real) -> None:
+        """set_member re-targets every alias listed in `old.aliases`, also stale entries of aliases that were re-targeted
+        elsewhere in the meantime.  When such an alias is an inner link of a chain, the outer aliases stay registered with
+        its previous final target (known finding K_INNER)."""
+        tree = {id(self.real[a.id]): a for a in self.tree_aliases()}
+        stale = [a for a in list(old_real.aliases.values()) if id(a) in tree and a.resolved and a.target is not old_real]
+        self.hijacked = [".".join(self.path_of(tree[id(a)])) for a in stale]
+        if K_INNER in self.known and any(
+            self.real[o.id].resolved and self.real[o.id].target is a for a in stale for o in self.tree_aliases()
+        ):
+            self.on_excluded(K_INNER)
+            raise Skip("known:" + K_INNER)
+
     def _expect_keyerror(self, api, base_real, k, real=None) -> list[Fail]:
         fn = {
             "set_member": lambda: base_real.set_member(k, real),
@@ -611,10 +630,21 @@ class World:
         node = self._pick_alias(aref)
         ar = self.real[node.id]
         self.opdesc = how
-        self.trace.append(["resolve", ".".join(self.path_of(node)), how, "-> " + ar.target_path])
+        apath = ".".join(self.path_of(node))
+        if how == "resolve_target" and ar.resolved:
+            # resolve_target() on a resolved alias looks the path up again: it is an explicit re-targeting
+            if K_INNER in self.known and any(
+                self.real[o.id].resolved and self.real[o.id].target is ar for o in self.tree_aliases() if o is not node
+            ):
+                self.on_excluded(K_INNER)
+                raise Skip("known:" + K_INNER)
+            self.retargeted = apath
+        self.trace.append(["resolve", apath, how, "-> " + ar.target_path])
         try:
             if how == "target":
                 call("op-raises", lambda: ar.target, what="alias.target", allowed=self.allowed_alias_errors)
+            elif how == "final_target":
+                call("op-raises", lambda: ar.final_target, what="alias.final_target", allowed=self.allowed_alias_errors)
             else:
                 call("op-raises", ar.resolve_target, what="alias.resolve_target()", allowed=self.allowed_alias_errors)
             self.classes["resolve:ok"] += 1
@@ -642,6 +672,13 @@ class World:
                     raise Skip("retarget-not-an-object")
             treal = self.real[tnode.id]
             tpath = ".".join(self.path_of(tnode))
+            if K_INNER in self.known and any(
+                self.real[o.id].resolved and self.real[o.id].target is ar for o in self.tree_aliases() if o is not node
+            ):
+                # known finding: other aliases point at this alias; they stay registered with its old final target
+                self.on_excluded(K_INNER)
+                raise Skip("known:" + K_INNER)
+            self.retargeted = apath
             self.trace.append(["retarget", apath, "obj", tpath])
             call("op-raises", setattr, ar, "target", treal, what=f"alias.target = <{tpath}>")
             self.classes["retarget:obj"] += 1
@@ -744,7 +781,7 @@ class World:
                     break
 
         # alias registry and self-target
-        n_direct = n_chain = 0
+        n_direct = n_chain = n_open = 0
         for node, path in in_tree:
             if node.kind != "alias":
                 continue
@@ -752,21 +789,44 @@ class World:
             if not ar.resolved:
                 continue
             target = ar.target
+            chain = False
             if target.is_alias:
+                # `aliases` of an alias is a proxy to the registry of its final target.  The links are followed without
+                # triggering any resolution; a chain with an unresolved link (or a ring) has no final target yet.
+                # This mirrors Alias.final_target (which detects rings by *path*: a live alias and a detached one can
+                # share a path, and then `aliases` of the chain raises CyclicAliasError: nothing to look into).
+                chain = True
+                cur, seen_paths, links = ar, set(), []
+                while cur.is_alias and cur.resolved and cur.path not in seen_paths:
+                    seen_paths.add(cur.path)
+                    links.append(cur.path)
+                    cur = cur.target
+                if cur.is_alias:
+                    n_open += 1
+                    continue
+                target = cur
                 n_chain += 1
-                continue  # `aliases` of an alias is a proxy to its final target: nothing stated about chains
-            n_direct += 1
+            else:
+                n_direct += 1
             own = ar.path
             if target.aliases.get(own) is not ar:
                 keys = [k for k, v in target.aliases.items() if v is ar]
                 occupant = target.aliases.get(own)
                 tree_reals = {id(self.real[n.id]) for n, _ in in_tree}
                 occupant_detached = occupant is not None and id(occupant) not in tree_reals
-                fail("alias-registered", f"resolved alias {own!r} -> {ar.target_path!r}: target.aliases[{own!r}] is {target.aliases.get(own)!r}; the alias is registered under {keys!r}", alias=own, keys=keys, occupant_detached=occupant_detached)
+                fail(
+                    "alias-registered",
+                    f"resolved alias {own!r} -> {ar.target_path!r}" + (f" (alias chain ending at {target.path!r})" if chain else "")
+                    + f": target.aliases[{own!r}] is {target.aliases.get(own)!r}; the alias is registered under {keys!r}",
+                    alias=own, keys=keys, occupant_detached=occupant_detached, chain=chain,
+                    links=links if chain else None, retargeted=self.retargeted, hijacked=self.hijacked or None,
+                )
         if n_direct:
             self.classes["registry-checked"] += n_direct
         if n_chain:
-            self.classes["registry-skipped-alias-chain"] += n_chain
+            self.classes["registry-checked:alias-chain"] += n_chain
+        if n_open:
+            self.classes["registry-skipped:chain-with-unresolved-link"] += n_open
         for node in self.aliases_ever:
             ar = self.real[node.id]
             if ar.resolved and ar.target is ar:
